@@ -9,7 +9,8 @@ together with the `not_time_dependent` metadata, the class's field list (the `se
 inherited if the class has none) and, for rows merged in through
 `result.update(Other.to_numpy([m.attr for m in messages]))`, the attribute prefix and Other's field list.
 Classes whose `to_numpy` is `return cls._message_to_numpy(messages)` are recorded as generic.
-Fails closed (raises) on a `to_numpy` whose overall shape it does not understand.
+A `to_numpy` whose overall shape it does not understand contributes no rows and is listed under `unanalysed`
+(the dynamic check still compares all of its outputs); source that does not parse at all raises (fail closed).
 Writes coq/theories/Generated/NumpyTables.v and returns the table (also used by the dynamic check).
 """
 import ast, glob, os, sys
@@ -196,7 +197,7 @@ def build_table():
     files = sorted(glob.glob(os.path.join(vf.REPO, PKG, '*.py')))
     if not files:
         raise RuntimeError('gen_c16: no sources under ' + PKG)
-    classes, analysed = {}, {}
+    classes, analysed, unanalysed = {}, {}, {}
     for f in files:
         mod = os.path.basename(f)[:-3]
         tree = ast.parse(open(f).read(), filename=f)      # SyntaxError propagates: fail closed
@@ -216,7 +217,12 @@ def build_table():
         return []
     for name, (node, mod) in classes.items():
         if any(isinstance(f, ast.FunctionDef) and f.name == 'to_numpy' for f in node.body):
-            a = _analyse(node, mod)
+            try:
+                a = _analyse(node, mod)
+            except Unsupported as e:
+                # a body shape the translator does not understand: the whole class is left to the dynamic comparison
+                unanalysed[name] = str(e)
+                a = dict(cls=name, module=mod, generic=False, rows=[], merges=[], rebinds_messages=False, ntd=[], unanalysed=True)
             a['fields'] = fields_of(name)
             analysed[name] = a
     if 'MessagePayload' not in analysed or not analysed['MessagePayload']['generic']:
@@ -230,8 +236,9 @@ def build_table():
         for r in a['rows']:
             rows[r['key']] = dict(r, prefix=[], fields=a['fields'], ntd=r['key'] in a['ntd'], via='')
         for other, prefix in a['merges']:
-            if other not in analysed or analysed[other]['generic'] or analysed[other]['merges']:
-                raise RuntimeError('gen_c16: %s merges %s.to_numpy which the translator cannot resolve' % (name, other))
+            if other not in analysed or analysed[other]['generic'] or analysed[other]['merges'] or analysed[other].get('unanalysed'):
+                unanalysed[name + ' (merged part)'] = 'merges %s.to_numpy which the translator cannot resolve' % other
+                continue
             for r in analysed[other]['rows']:
                 rows[r['key']] = dict(r, path=(prefix + r['path']) if r['path'] else [], prefix=prefix, fields=analysed[other]['fields'],
                                       ntd=r['key'] in analysed[other]['ntd'], via=other)
@@ -256,7 +263,7 @@ def build_table():
                     inherits[name] = nxt
                 break
             cur = classes[nxt][0]
-    return dict(classes=table, generic_base='MessagePayload', inherits=inherits)
+    return dict(classes=table, generic_base='MessagePayload', inherits=inherits, unanalysed=unanalysed)
 
 
 def _cs(s):
